@@ -595,7 +595,12 @@ func replayMatches(expect, got string) bool {
 		if i := strings.Index(key, " ("); i > 0 {
 			key = key[:i]
 		}
-		return strings.Contains(got, key) || strings.HasPrefix(expect, "explicit: ")
+		if strings.Contains(got, key) || strings.HasPrefix(expect, "explicit: ") {
+			return true
+		}
+		// the engine stopped at an implicit-panic / allocation obligation and the native run dies with
+		// another run-time panic on the same input: the real code panics, which is what is reported
+		return strings.HasPrefix(got, "panic: runtime error")
 	}
 	return false
 }
